@@ -475,7 +475,14 @@ fn gen(r: &mut Rng, cols: &[(String, Ty)], t: Ty, d: u32, like: bool) -> E {
                     let k = r.range(0, 6) as usize;
                     let dynamic = r.chance(1, 3);
                     let list = (0..k).map(|i| if dynamic && i == 0 { gen(r, cols, ot, d - 1, like) } else { E::Lit(ot, gen_val(r, ot, 15)) }).collect();
-                    E::InList(r.chance(1, 2), bx(gen(r, cols, ot, d - 1, like)), list)
+                    // (an empty list is not SQL; the planner folds `NULL::Utf8 IN ()` to NULL while the dynamic path
+                    // gives FALSE for every needle: keep literal needles away from empty lists)
+                    let needle = match (k, col_of(r, cols, ot)) {
+                        (0, Some(c)) => E::Col(c),
+                        _ => gen(r, cols, ot, d - 1, like),
+                    };
+                    let list = if k == 0 && !matches!(needle, E::Col(_)) { vec![E::Lit(ot, gen_val(r, ot, 15))] } else { list };
+                    E::InList(r.chance(1, 2), bx(needle), list)
                 }
                 12 => gen_case(r, cols, t, d, like),
                 13 => gen_simple_case(r, cols, t, d, like),
@@ -726,7 +733,7 @@ fn s_case1(r: &mut Rng) -> Case_ {
     Case_ { stream: "case1", kind: 0, cols, rows, n, sel: None, e }
 }
 
-fn s_logic(r: &mut Rng) -> Case_ {
+fn s_logic(r: &mut Rng, allow_guard: bool) -> Case_ {
     // columns: a (the guard / divisor), b, p (left side boolean), q
     let cols = base_cols();
     let n = match r.below(8) {
@@ -761,7 +768,8 @@ fn s_logic(r: &mut Rng) -> Case_ {
         pcol.swap(i, j);
     }
     rows[2] = pcol;
-    let guard = r.chance(1, 2) && shape <= 2;
+    // (the guard relies on the density of the whole batch: not under evaluate_selection, which filters first)
+    let guard = r.chance(1, 2) && shape <= 2 && allow_guard;
     let (l, rr) = if guard {
         // left side decides exactly where the division is defined:  a <> 0 AND b / a > 1   |   a = 0 OR b / a > 1
         // lay out `a` from p so that the density of the left side is the chosen shape
@@ -796,7 +804,7 @@ fn s_sel(r: &mut Rng) -> Case_ {
     let mut c = match r.below(4) {
         0 => s_mask(r),
         1 => s_inlist(r),
-        2 => s_logic(r),
+        2 => s_logic(r, false),
         _ => s_tree(r, false),
     };
     let shape = r.below(5);
@@ -815,6 +823,12 @@ fn fixed() -> Vec<Case_> {
     for neg in [false, true] {
         let abs_b = E::Case(vec![(E::Cmp(">", bx(E::Col(1)), bx(li(0))), E::Col(1)), (E::Cmp("<", bx(E::Col(1)), bx(li(0))), E::Arith('-', bx(li(0)), bx(E::Col(1))))], Some(bx(li(0))));
         out.push(Case_ { stream: "witness", kind: 0, cols: vec![("a".into(), Ty::I64), ("b".into(), Ty::I64)], rows: vec![vec![i(1), i(2), i(0), i(3)], vec![i(1), i(-2), i(5), i(0)]], n: 4, sel: None, e: E::InList(neg, bx(E::Col(0)), vec![abs_b, li(7)]) });
+    }
+    // witness of KF-C33-2: a batch of 0 rows; no WHEN has a true row, so ELSE (a constant expression that fails) is
+    // evaluated on the empty batch:  CASE WHEN a > 0 THEN 1 WHEN a <= 0 THEN 2 ELSE 1 / 0 END
+    {
+        let e = E::Case(vec![(E::Cmp(">", bx(E::Col(0)), bx(li(0))), li(1)), (E::Cmp("<=", bx(E::Col(0)), bx(li(0))), li(2))], Some(bx(E::Arith('/', bx(li(1)), bx(li(0))))));
+        out.push(Case_ { stream: "witness", kind: 0, cols: vec![("a".into(), Ty::I64), ("b".into(), Ty::I64)], rows: vec![vec![], vec![]], n: 0, sel: None, e });
     }
     // IN (SET) with NULL in the list, NOT IN, NULL needle
     for neg in [false, true] {
@@ -886,7 +900,7 @@ fn main() {
             2 => s_lookup(&mut r),
             3 | 4 => s_mask(&mut r),
             5 => s_case1(&mut r),
-            6 | 7 => s_logic(&mut r),
+            6 | 7 => s_logic(&mut r, true),
             8 => s_sel(&mut r),
             9 => s_tree(&mut r, true),
             _ => s_tree(&mut r, false),
